@@ -268,6 +268,24 @@ def setup(ctx):
     ctx.fresh_spawned = 0
     ctx.fresh_budget = ctx.scale(0, 150)
     ctx.pristine = SqParser()
+    # table enumeration: the result of a builtin mutated in place by the program, then the same call again - for container-returning entries of the pinned
+    # table and, with several argument shapes, for every entry the pinned table does not have (state kept by a builtin shows in the sweep)
+    from lib import gram
+    extra = []
+    for name, args in (('split', '"a,b,c", ","'), ('sorted', '[3, 1, 2]'), ('keys', '{"a": 1, "b": 2}'), ('values', '{"a": [1]}'), ('items', '{"a": 1}'), ('list', '1, 2'), ('dict', '{"a": 1}'),
+                       ('match_all', '"a1b22", r"\\d+"'), ('reversed', '[1, 2, 3]'), ('map', '[1, 2], v => [v]'), ('filter', '[1, 0, 2], v => v'), ('enumerate', '["a", "b"]')):
+        if name in functions.FUNCTIONS:
+            extra.append('__setitem__(%s(%s), 0, 99)\n%s(%s)' % (name, args, name, args))
+            extra.append('%s(%s)' % (name, args))
+    for name in sorted(n for n in functions.FUNCTIONS if n not in gram.PINNED_TABLE):
+        for args in ('"[1, 2, 3]"', '[3, 1, 2]', '{"a": [1], "b": 2}', '"a,b", ","', '5', '"abc"', '[1, 2], v => v', '{"a": 1}, {"a": 2}'):
+            extra.append('__setitem__(%s(%s), 0, 99)\n%s(%s)' % (name, args, name, args))
+            extra.append('__setitem__(%s(%s), "zz", 99)\npop(%s(%s))\n%s(%s)' % ((name, args) * 3))
+            extra.append('%s(%s)' % (name, args))          # ... and the plain call, whose outcome must not depend on whether the texts above ran before
+    for t in extra:
+        if t not in VALID:
+            VALID.append(t)
+    ctx.count('table_enumeration_texts_in_the_corpus', len(extra))
 
 
 def gen_history(r):
